@@ -35,6 +35,9 @@ CONFIGS = {
                      "HBS_LMS_WINTERNITZ_PARAMETERS": "8, 8, 8"}, "features": ["hbs_lms_verif"]},
     "fastverify": {"env": {"HBS_LMS_MAX_HASH_OPTIMIZATIONS": "4", "HBS_LMS_THREADS": "1"},
                    "features": ["hbs_lms_verif", "fast_verify"]},
+    # the smallest build there is (one level, height <= 5, W8): buffers of ~1.3 kB; for control flow that does not depend on sizes
+    "L1h5w8": {"env": {"HBS_LMS_MAX_ALLOWED_HSS_LEVELS": "1", "HBS_LMS_TREE_HEIGHTS": "5",
+                       "HBS_LMS_WINTERNITZ_PARAMETERS": "8"}, "features": ["hbs_lms_verif"]},
     "L1": {"env": {"HBS_LMS_MAX_ALLOWED_HSS_LEVELS": "1", "HBS_LMS_TREE_HEIGHTS": "25",
                    "HBS_LMS_WINTERNITZ_PARAMETERS": "1"}, "features": ["hbs_lms_verif"]},
     "L2": {"env": {"HBS_LMS_MAX_ALLOWED_HSS_LEVELS": "2", "HBS_LMS_TREE_HEIGHTS": "25, 25",
